@@ -383,6 +383,14 @@ func (g *Generator) generateWithoutSaving(parents []*theTypeInfo, t reflect.Type
 						return nil, err
 					}
 				}
+				if ref != nil && fieldInfo.JSONString && isQuotedByJSONString(fType) {
+					// encoding/json writes such a field as a JSON string holding the encoded value
+					quoted := &openapi3.Schema{Type: &openapi3.Types{"string"}}
+					if ref.Value != nil {
+						quoted.Nullable = ref.Value.Nullable
+					}
+					ref = openapi3.NewSchemaRef("", quoted)
+				}
 				if ref != nil {
 					g.SchemaRefs[ref]++
 					schema.WithPropertyRef(fieldName, ref)
@@ -449,6 +457,22 @@ func (g *Generator) generateTypeName(t reflect.Type) string {
 	}
 
 	return t.Name()
+}
+
+// isQuotedByJSONString tells whether encoding/json honours the ",string" tag option for a field of type t:
+// strings, integers, floating point numbers and booleans, or a pointer to one of those.
+func isQuotedByJSONString(t reflect.Type) bool {
+	if t.Kind() == reflect.Ptr && t.Name() == "" {
+		t = t.Elem()
+	}
+	switch t.Kind() {
+	case reflect.Bool, reflect.String,
+		reflect.Int, reflect.Int8, reflect.Int16, reflect.Int32, reflect.Int64,
+		reflect.Uint, reflect.Uint8, reflect.Uint16, reflect.Uint32, reflect.Uint64, reflect.Uintptr,
+		reflect.Float32, reflect.Float64:
+		return true
+	}
+	return false
 }
 
 func (g *Generator) generateCycleSchemaRef(t reflect.Type, schema *openapi3.Schema) *openapi3.SchemaRef {
